@@ -122,7 +122,9 @@ Proof.
   intros HI. unfold finish_obj. destruct (gw_objs s !! g) as [t|]; [|exact HI]. cbv zeta.
   assert (H : Inv2 (disarm_obj s g <| gw_objs := delete g (gw_objs (disarm_obj s g)) |>))
     by (apply Inv2_delete, Inv2_disarm_obj, HI).
-  destruct t; peel2; exact H.
+  destruct t; [peel2; exact H| | |];
+    (match goal with |- Inv2 (match ?x with _ => _ end) => destruct x as [g'|] end;
+     [destruct (g' =? g); [peel2; exact H|exact H]|exact H]).
 Qed.
 
 Lemma Inv2_lookup s g t : Inv2 s -> gw_objs s !! g = Some t -> okT2 t.
